@@ -279,3 +279,162 @@ def conv_linear_numel(net):
 def is_unsupported(exc):
     s = str(exc)
     return any(mk in s for mk in UNSUPPORTED_MARKERS)
+
+
+# ------------------------------------------------------------------------------------------------
+# program-level analysis (independent of PLiNIO's graph passes)
+# ------------------------------------------------------------------------------------------------
+def width_groups(prog):
+    """Union-find over layer names whose output width is tied together by the dataflow (residual
+    sums, depthwise convolutions, time-axis concat); returns (groups, frozen_layers) where
+    frozen_layers are the layers tied to a network input or to the network output."""
+    parent = {}
+
+    def find(a):
+        parent.setdefault(a, a)
+        while parent[a] != a:
+            parent[a] = parent[parent[a]]
+            a = parent[a]
+        return a
+
+    def union(a, b):
+        ra, rb = find(a), find(b)
+        if ra != rb:
+            parent[ra] = rb
+    ties = {f'x{i}': {'@input'} for i in range(len(prog['inputs']))}
+    find('@input')
+    ncat = 0
+    for op in prog['ops']:
+        k = op['op']
+        if k == 'conv' and not op.get('dw'):
+            t = {op['name']}
+        elif k == 'lin':
+            t = {op['name']}
+        elif k == 'conv':
+            t = set(ties[op['src']]) | {op['name']}
+        elif k in ('act', 'pool', 'bn', 'flat', 'squeeze'):
+            t = set(ties[op['src']])
+        elif k == 'add' or (k == 'cat' and op['dim'] != 1):
+            t = set()
+            for s in op['srcs']:
+                t |= ties[s]
+        elif k == 'cat':
+            ncat += 1
+            t = {f'@cat{ncat}'}
+        else:
+            raise ValueError(k)
+        for a in t:
+            find(a)
+        tl = list(t)
+        for a in tl[1:]:
+            union(tl[0], a)
+        ties[op['out']] = t
+    out_t = ties[prog['out']]
+    for a in out_t:
+        union('@output', a)
+    find('@output')
+    frozen_roots = {find('@input'), find('@output')}
+    layers = {op['name'] for op in prog['ops'] if op['op'] in ('conv', 'lin')}
+    frozen = {l for l in layers if l in parent and find(l) in frozen_roots}
+    groups = {}
+    for l in layers:
+        if l in parent:
+            groups.setdefault(find(l), set()).add(l)
+    return groups, frozen
+
+
+def tensor_origins(prog):
+    """origin class of every tensor: input / search / fixed / cat / mixed (program-level)."""
+    org = {f'x{i}': 'input' for i in range(len(prog['inputs']))}
+    excluded = set(prog.get('excluded', ()))
+    for op in prog['ops']:
+        k = op['op']
+        if k in ('conv', 'lin'):
+            fixed = op['name'] in excluded or op.get('fixed')
+            if k == 'conv' and op.get('dw') and not fixed:
+                o = org[op['src']]
+            else:
+                o = 'fixed' if fixed else 'search'
+        elif k in ('act', 'pool', 'bn', 'flat', 'squeeze'):
+            o = org[op['src']]
+        elif k == 'add':
+            os_ = [org[s] for s in op['srcs']]
+            o = 'cat' if 'cat' in os_ else ('fixed' if 'fixed' in os_ else
+                                            ('input' if 'input' in os_ else 'mixed'))
+        elif k == 'cat':
+            o = 'cat' if op['dim'] == 1 else 'mixed'
+        org[op['out']] = o
+    return org
+
+
+def r_alive(prog, layer_masks, fixed_layers=(), shapes=None):
+    """R-alive: forward propagation of alive-channel vectors over the *program* (my own dataflow
+    model, not PLiNIO's graph passes).
+
+    layer_masks: name -> list of 0/1 (the layer's own binarised output mask); layers in
+    `fixed_layers` (excluded / not converted) are all-alive.  shapes: tensor -> shape (no batch).
+    Returns (alive, findings, taint): alive[t] is the list of 0/1 per feature of tensor t;
+    findings are the places where the masks themselves are inconsistent with the dataflow (add
+    operands that disagree, a depthwise mask that differs from its input, a fixed layer fed by a
+    pruned tensor); taint[t] is the set of such inconsistency kinds upstream of t (since the last
+    features-defining layer), where "the alive features of the tensor" is no longer well defined."""
+    shapes = shapes or pitgen.tensor_shapes(prog)
+    alive, taint, findings = {}, {}, []
+    org = tensor_origins(prog)
+    for i, s in enumerate(prog['inputs']):
+        alive[f'x{i}'] = [1] * s[0]
+        taint[f'x{i}'] = set()
+    fixed_layers = set(fixed_layers)
+    for op in prog['ops']:
+        k = op['op']
+        if k in ('conv', 'lin'):
+            src = op['src']
+            width = op['cout'] if k == 'conv' else op['fout']
+            if op['name'] in fixed_layers:
+                a, t = [1] * width, set()
+                if not all(alive[src]):
+                    findings.append({'kind': 'excluded-consumer', 'op': op['name'],
+                                     'src_origin': org[src], 'src_alive': alive[src]})
+                    t = {'excluded-consumer'}
+            elif k == 'conv' and op.get('dw'):
+                a, t = list(layer_masks[op['name']]), set(taint[src])
+                if a != alive[src]:
+                    kind = 'dw:' + org[src]
+                    findings.append({'kind': kind, 'op': op['name'], 'own_mask': a,
+                                     'src_alive': alive[src]})
+                    t.add(kind)
+            else:
+                a, t = list(layer_masks[op['name']]), set()
+        elif k in ('act', 'pool', 'bn', 'squeeze'):
+            a, t = alive[op['src']], set(taint[op['src']])
+        elif k == 'flat':
+            shp = shapes[op['src']]
+            n = 1
+            for x in shp[1:]:
+                n *= x
+            a = [v for v in alive[op['src']] for _ in range(n)]
+            t = set(taint[op['src']])
+        elif k == 'add' or (k == 'cat' and op['dim'] != 1):
+            vs = [alive[s_] for s_ in op['srcs']]
+            t = set()
+            for s_ in op['srcs']:
+                t |= taint[s_]
+            a = vs[0]
+            if any(v != vs[0] for v in vs[1:]):
+                os_ = sorted(org[s_] for s_ in op['srcs'])
+                worst = next((o for o in ('cat', 'fixed', 'input') if o in os_), 'search')
+                kind = ('add:' if k == 'add' else 'tcat:') + worst
+                findings.append({'kind': kind, 'op': op['out'], 'operand_origins': os_,
+                                 'operand_alive': vs})
+                t.add(kind)
+                a = [int(any(col)) for col in zip(*vs)]
+        elif k == 'cat':
+            a, t = [], set()
+            for s_ in op['srcs']:
+                a = a + alive[s_]
+                t |= taint[s_]
+        else:
+            raise ValueError(k)
+        alive[op['out']] = a
+        taint[op['out']] = t
+    return alive, findings, taint
